@@ -308,12 +308,40 @@ Proof.
     assert (validate_stack_shapes arrs 0 0 = Ok tt) as ->.
     { pose proof (concatenate_rank1 first rest F1) as C. unfold concatenate in C. fold arrs in C.
       destruct (validate_stack_shapes arrs 0 0) as [[]| | |]; try discriminate; reflexivity. }
-    cbn [bind]. unfold ndim at 1. rewrite Sf. cbn [length Nat.eqb].
+    cbn [bind]. unfold ndim at 1 2. rewrite Sf. cbn [length Nat.eqb].
+    assert (forallb (fun a : arr T => nat_list_eqb (shape a) [l]) arrs = true) as ->.
+    { apply forallb_forall. intros a Ha. rewrite Forall_forall in F. destruct (F a Ha) as [_ ->]. now apply nat_list_eqb_spec. }
+    cbn [guard bind].
     unfold arrs at 1. rewrite (concatenate_rank1 first rest F1). fold arrs. cbn [bind].
     apply reshape_iff. unfold len. cbn [elems prod]. rewrite (CL arrs F). lia.
   - unfold wf. cbn [elems shape prod]. rewrite (CL arrs F). lia.
   - intros k j Hk Hj. unfold get. cbn [shape elems flat prod].
     replace (k * (l * 1) + (j * 1 + 0)) with (k * l + j) by lia. apply nth_chain; assumption.
+Qed.
+
+(* vectors of different lengths are refused (repair F30: the pinned code chained them and cut rows of the first
+   one's length, so vstack [1,2] [3] [4,5,6] was answered with [[1,2],[3,4],[5,6]]) *)
+Theorem vstack_rank1_ragged (first : arr T) rest x :
+  Forall (fun a => ndim a = 1) (first :: rest) -> In x rest -> shape x <> shape first ->
+  vstack d (first :: rest) = Err EConcat.
+Proof.
+  intros F Hx Ne. unfold vstack.
+  assert (validate_stack_shapes (first :: rest) 0 0 = Ok tt) as ->.
+  { unfold validate_stack_shapes.
+    assert (forallb (fun a : arr T => 0 <? ndim a) (first :: rest) = true) as ->.
+    { apply forallb_forall. intros a Ha. rewrite Forall_forall in F. rewrite (F a Ha). reflexivity. }
+    cbn [guard bind negb].
+    assert (map (fun a : arr T => remove_nth (shape a) 0) (first :: rest) = repeat [] (length (first :: rest))) as ->.
+    { induction (first :: rest) as [|a t IH]; [reflexivity|]. apply Forall_cons_iff in F as [N Ft].
+      cbn [map length repeat]. rewrite IH by exact Ft. f_equal. unfold ndim in N. destruct (shape a) as [|y [|? ?]]; cbn in *; try lia; reflexivity. }
+    assert (forall k, forallb (fun p : list nat * list nat => nat_list_eqb (fst p) (snd p)) (combine (repeat [] k) (tl (repeat [] k))) = true) as K.
+    { induction k as [|k IHk]; [reflexivity|]. cbn [repeat tl]. destruct k as [|k]; [reflexivity|].
+      cbn [repeat combine forallb fst snd]. exact IHk. }
+    rewrite K. reflexivity. }
+  cbn [bind]. apply Forall_cons_iff in F as [Nf _]. rewrite Nf. cbn [Nat.eqb].
+  assert (forallb (fun a : arr T => nat_list_eqb (shape a) (shape first)) (first :: rest) = false) as ->; [|reflexivity].
+  apply Bool.not_true_is_false. intros Hall. rewrite forallb_forall in Hall.
+  specialize (Hall x ltac:(now right)). apply nat_list_eqb_spec in Hall. contradiction.
 Qed.
 
 End Rank1.
@@ -345,7 +373,7 @@ Proof.
   intros N2 B F. destruct (concatenate_restack 0 rs n first rest N2 ltac:(lia) B F) as (R & E & RS).
   exists R. split; [exact E|]. unfold vstack. rewrite (validate_ok 0 rs n _ ltac:(lia) F). cbn [bind].
   apply Forall_cons_iff in F as [(_ & _ & Nf & _) _].
-  destruct (Nat.eqb_spec (ndim first) 1) as [E1|_]; [lia|]. rewrite E. cbn [bind]. exact RS.
+  destruct (Nat.eqb_spec (ndim first) 1) as [E1|_]; [lia|]. cbn [bind]. rewrite E. cbn [bind]. exact RS.
 Qed.
 
 Lemma mapM_atleast_id k (arrs : list (arr T)) : k = 2 \/ k = 3 -> Forall (fun a => k <= ndim a) arrs ->
